@@ -499,6 +499,21 @@ fn time_unit() -> BoxedStrategy<U> {
     gen::unit_in(4, 9)
 }
 
+/// PlainDateTime::round cases (also used by C05)
+pub fn dt_round_case() -> BoxedStrategy<PubCase> {
+    let base = PubCase { op: Op::DateTimeRound, a: 0, a_day: 0, b: 0, b_day: 0, unit: U::Second, inc: 1, mode: Mode::Trunc, digits: None, offset_min: 0 };
+    let unit_inc = time_unit().prop_flat_map(|u| (Just(u), proptest::sample::select(incs_for(u))));
+    let dt_unit_inc = prop_oneof![4 => unit_inc, 1 => Just((U::Day, 1u32))];
+    (dt_unit_inc, gen::mode(), gen::day())
+        .prop_flat_map(move |((u, inc), m, day)| {
+            let b = base.clone();
+            near_multiple(inc as i128 * u.ns(), 0, DAY - 1)
+                .prop_map(move |a| PubCase { op: Op::DateTimeRound, a, a_day: day, unit: u, inc, mode: m, ..b.clone() })
+                .prop_filter("in range", |c| datetime_in_range(c.a_day, c.a))
+        })
+        .boxed()
+}
+
 fn pub_case() -> BoxedStrategy<PubCase> {
     let base = PubCase { op: Op::TimeRound, a: 0, a_day: 0, b: 0, b_day: 0, unit: U::Second, inc: 1, mode: Mode::Trunc, digits: None, offset_min: 0 };
     // (unit, inc) admissible for plain rounding / differences
@@ -508,14 +523,7 @@ fn pub_case() -> BoxedStrategy<PubCase> {
         let b = b1.clone();
         near_multiple(inc as i128 * u.ns(), 0, DAY - 1).prop_map(move |a| PubCase { op: Op::TimeRound, a, unit: u, inc, mode: m, ..b.clone() })
     });
-    let b2 = base.clone();
-    let dt_unit_inc = prop_oneof![4 => unit_inc.clone(), 1 => Just((U::Day, 1u32))];
-    let dt_round = (dt_unit_inc, gen::mode(), gen::day()).prop_flat_map(move |((u, inc), m, day)| {
-        let b = b2.clone();
-        near_multiple(inc as i128 * u.ns(), 0, DAY - 1)
-            .prop_map(move |a| PubCase { op: Op::DateTimeRound, a, a_day: day, unit: u, inc, mode: m, ..b.clone() })
-            .prop_filter("in range", |c| datetime_in_range(c.a_day, c.a))
-    });
+    let dt_round = dt_round_case();
     let b3 = base.clone();
     let inst_unit_inc = time_unit().prop_flat_map(|u| (Just(u), proptest::sample::select(instant_incs(u))));
     let inst_round = (inst_unit_inc, gen::mode(), prop::bool::ANY).prop_flat_map(move |((u, inc), m, edge)| {
